@@ -24,6 +24,7 @@ import (
 	"github.com/ipld/go-ipld-prime/fluent"
 	cidlink "github.com/ipld/go-ipld-prime/linking/cid"
 	basicnode "github.com/ipld/go-ipld-prime/node/basic"
+	"github.com/ipni/go-libipni/announce"
 	"github.com/ipni/go-libipni/dagsync"
 	"github.com/ipni/go-libipni/dagsync/ipnisync"
 	"github.com/ipni/go-libipni/maurl"
@@ -120,6 +121,9 @@ type World struct {
 	hosts  []string              // host:port of each address id
 	alive  []atomic.Bool
 	closer []func()
+
+	// MustExit: a subscriber is stuck for good in this process (set by History)
+	MustExit bool
 
 	// stream worlds
 	pubHost host.Host
@@ -288,6 +292,11 @@ type Config struct {
 	Seg     int `json:"seg"`      // segment depth limit; 0 = segmentation off
 	Latest0 int `json:"latest0"`  // latest-synced position preset before the history (0 = none)
 	Pre     []int `json:"pre,omitempty"` // positions stored locally before the history
+	// Subscriber options that change the control flow around failures
+	MaxAsync  int  `json:"max_async,omitempty"`  // MaxAsyncConcurrency (0 = option not given)
+	NoHook    bool `json:"no_hook,omitempty"`    // no BlockHook option (no segmentation, no FailSync; hook calls cannot be seen)
+	NonStrict bool `json:"non_strict,omitempty"` // StrictAdsSelector(false)
+	FilterIPs bool `json:"filter_ips,omitempty"` // RecvAnnounce(.., announce.WithFilterIPs(true)): loopback addresses are dropped from announcements
 }
 
 // Op is one sync of a history.
@@ -353,6 +362,7 @@ type Run struct {
 	cliHost host.Host
 
 	annOK map[int]bool // heads whose announce-triggered sync succeeded on this subscriber
+	Hung  bool         // an explicit sync never returned: the subscriber cannot be used (or closed) any more
 
 	hookMu   sync.Mutex
 	hookLog  []int
@@ -404,7 +414,20 @@ func (w *World) NewRun(cfg Config) *Run {
 			act.FailSync(errors.New("hook says no"))
 		}
 	}
-	opts := []dagsync.Option{dagsync.HttpTimeout(ClientTimeout), dagsync.BlockHook(hook)}
+	opts := []dagsync.Option{dagsync.HttpTimeout(ClientTimeout)}
+	if !cfg.NoHook {
+		opts = append(opts, dagsync.BlockHook(hook))
+	}
+	if cfg.MaxAsync != 0 {
+		opts = append(opts, dagsync.MaxAsyncConcurrency(cfg.MaxAsync))
+	}
+	if cfg.NonStrict {
+		opts = append(opts, dagsync.StrictAdsSelector(false))
+	}
+	var ropts []announce.Option
+	if cfg.FilterIPs {
+		ropts = append(ropts, announce.WithFilterIPs(true))
+	}
 	if cfg.Seg > 0 {
 		opts = append(opts, dagsync.SegmentDepthLimit(int64(cfg.Seg)))
 	}
@@ -423,9 +446,9 @@ func (w *World) NewRun(cfg Config) *Run {
 			}
 			return -1
 		}}
-		opts = append(opts, dagsync.RecvAnnounce(Topic))
+		opts = append(opts, dagsync.RecvAnnounce(Topic, ropts...))
 	} else {
-		opts = append(opts, dagsync.RecvAnnounce(""))
+		opts = append(opts, dagsync.RecvAnnounce("", ropts...))
 	}
 	sub, err := dagsync.NewSubscriber(h, r.lsys, opts...)
 	if err != nil {
@@ -518,6 +541,10 @@ func (r *Run) store() (ps []int, bad []string) {
 // IdleWait: an announce-triggered sync that shows no activity at the fault layer for this
 // long (longer than the client timeout) and has produced no event is taken to have ended
 // without one.
+// HungAfter: how long an explicit sync is given to return (it normally takes milliseconds,
+// a few client timeouts with stalls).
+var HungAfter = 8 * time.Second
+
 func IdleWait() time.Duration { return scaled(ClientTimeout + 600*time.Millisecond) }
 
 func (r *Run) collect(n int, wait time.Duration) []Ev {
@@ -588,7 +615,37 @@ func (r *Run) Do(op Op) (o Obs) {
 		}()
 		switch op.Mode {
 		case "explicit":
-			c, err := r.Sub.SyncAdChain(ctx, ai)
+			// SyncAdChain takes locks that do not know about the context: a watchdog tells
+			// "never returns" from "fails"
+			type ret struct {
+				c   cid.Cid
+				err error
+			}
+			rc := make(chan ret, 1)
+			go func() {
+				defer func() {
+					if x := recover(); x != nil {
+						rc <- ret{cid.Undef, fmt.Errorf("panic: %v", x)}
+					}
+				}()
+				c, err := r.Sub.SyncAdChain(ctx, ai)
+				rc <- ret{c, err}
+			}()
+			var c cid.Cid
+			var err error
+			select {
+			case x := <-rc:
+				c, err = x.c, x.err
+			case <-time.After(scaled(HungAfter)):
+				o.Result, o.Err = "hung", "SyncAdChain did not return"
+				r.Hung = true
+			}
+			if r.Hung {
+				break
+			}
+			if err != nil && strings.HasPrefix(err.Error(), "panic: ") {
+				panic(strings.TrimPrefix(err.Error(), "panic: "))
+			}
 			if err != nil {
 				o.Result, o.Err = "err", err.Error()
 				o.Events = r.collect(0, 0)
@@ -730,6 +787,9 @@ func (w *World) History(cfg Config, ops []Op) (eff []Op, obs []Obs, late []Ev) {
 	prev := append([]int(nil), cfg.Pre...)
 	sort.Ints(prev)
 	for _, op := range ops {
+		if r.Hung {
+			break
+		}
 		o := r.Do(op)
 		if op.Mode == "announce2" {
 			opX, opY, oX, oY := w.Split(op, o, prev)
@@ -740,6 +800,11 @@ func (w *World) History(cfg Config, ops []Op) (eff []Op, obs []Obs, late []Ev) {
 			obs = append(obs, o)
 		}
 		prev = o.Store
+	}
+	if r.Hung {
+		// Close would wait for the sync that never returns; the process must be replaced
+		w.MustExit = true
+		return
 	}
 	late = r.Close()
 	return
